@@ -16,6 +16,9 @@ def run(rep, tier, seed, replay):
                 "of its compiled pattern is compared with the singleton over ALL paths; non-trivial = built and (invariant text, or "
                 "a case-insensitive literal, or a class)")
     exprs = lib.inputs(rep, "C11", tier, seed, 2500, 30000, replay, trees=False, lits=["a", "b", "A", "é", "É", "ǆ", "ǅ", "1", ".", "..", "s", "ſ", "k", "K", "ß", "σ", "ς", "中", "x.y", "\\*"])
+    if replay is None:
+        import gen as _gfs
+        exprs += [e for e in _gfs.flag_scope_family() if e not in set(exprs)]
     # plus small invariant shapes
     if replay is None:
         exprs += [e for e in ["(?i)ǅ", "(?i)1", "(?i)中", "(?i)ß", "a[/]", "[a]", "[a-a]", "{a,a}", "<a:2>", "<ab:2,2>", "{a,b}", "(?i)K", "(?i)ſ", "a/b", "/a", "{a/b}", "<a/:1>b", "[!a]"] if e not in exprs]
